@@ -192,6 +192,17 @@ func runEscaperProperty(o *Options, prop string, forms []EscForm, oracle func(Es
 		if plan.Extra != nil {
 			plan.Extra(add)
 		}
+		// numbers of every kind through every (non-region) form
+		for i := range numCarriersEsc {
+			if txt, ok := numText(i); ok {
+				for _, f := range forms {
+					if f.Region == "" && f.MaxIn == 0 {
+						add(f, fmt.Sprintf("num#%d", i), txt)
+						res.Hist("stream:numeric-carrier")
+					}
+				}
+			}
+		}
 		if plan.Scalars {
 			step := 97 // quick: a stride through the scalar values plus every boundary; thorough: all of them
 			if o.Tier == "thorough" {
